@@ -385,24 +385,56 @@ func (fr *Frame) evalValue(n *vnode, v ssa.Value) *Val {
 		x.eng.Note("map lookups with non-basic keys return arbitrary values in " + fr.fn.String())
 		return x.freshVal("lookup", i.Type())
 	case *ssa.Range:
-		// iteration over a map or string: an opaque iterator; Next yields arbitrary entries
-		x.eng.Note("range over a map/string is modelled as an arbitrary sequence of entries in " + fr.fn.String())
+		// iteration over a map: an opaque iterator, Next yields arbitrary entries.  Over a string:
+		// the iterator carries the byte position (ghost component G$iterpos) and Next decodes one
+		// code point: a byte below 0x80 is itself, anything else is some rune >= 0x80 taking 1..4 bytes.
 		r := &Val{T: x.eng.FreshVar("iter", SRef), Ty: i.Type()}
 		if sv := fr.val(i.X, n); sv.T != nil && sv.T.S == SStr {
-			r.Tup = []*Val{{T: sv.T}} // remember the string for bounds of the index
+			itref := x.newRef("iter$" + i.Name())
+			m := x.comp(n.heap, "G$iterpos", SArray(SInt, SInt))
+			n.heap["G$iterpos"] = Store(m, itref, IntLit(0))
+			r.Tup = []*Val{{T: sv.T}, {T: itref}}
+		} else {
+			x.eng.Note("range over a map is modelled as an arbitrary sequence of entries in " + fr.fn.String())
 		}
 		return r
 	case *ssa.Next:
 		tup := i.Type().(*types.Tuple)
 		res := &Val{Ty: i.Type()}
 		for k := 0; k < tup.Len(); k++ {
-			res.Tup = append(res.Tup, x.freshVal(fmt.Sprintf("next%d", k), tup.At(k).Type()))
+			et := tup.At(k).Type()
+			if b, ok := et.(*types.Basic); ok && b.Kind() == types.Invalid {
+				// unused key or value
+				et = types.Typ[types.Int]
+				if i.IsString && k == 2 {
+					et = types.Typ[types.Rune]
+				}
+			}
+			res.Tup = append(res.Tup, x.freshVal(fmt.Sprintf("next%d", k), et))
 		}
 		if i.IsString {
 			it := fr.val(i.Iter, n)
-			if len(it.Tup) == 1 && it.Tup[0].T != nil {
-				idx := res.Tup[1].T
-				x.vc.Assume(Implies(res.Tup[0].T, And(Ge(idx, IntLit(0)), Lt(idx, x.strLen(it.Tup[0].T)))))
+			if len(it.Tup) == 2 && it.Tup[0].T != nil {
+				str, itref := it.Tup[0].T, it.Tup[1].T
+				m := x.comp(n.heap, "G$iterpos", SArray(SInt, SInt))
+				pos := Select(m, itref)
+				ok, idx, r := res.Tup[0].T, res.Tup[1].T, res.Tup[2].T
+				sl := x.strLen(str)
+				x.vc.Assume(Ge(pos, IntLit(0)))
+				x.vc.Assume(Eq(ok, Lt(pos, sl)))
+				x.vc.Assume(Implies(ok, Eq(idx, pos)))
+				adv := x.eng.FreshVar("runew", SInt)
+				if r != nil {
+					x.eng.DeclareUF("strAt", SBV(8), SStr, SInt)
+					b := BV2Nat(App("strAt", SBV(8), str, pos))
+					ri := x.asInt(r)
+					x.vc.Assume(Implies(ok, Ite(Lt(b, IntLit(0x80)),
+						And(Eq(ri, b), Eq(adv, IntLit(1))),
+						And(Ge(ri, IntLit(0x80)), Le(ri, IntLit(0x10FFFF)), Ge(adv, IntLit(1)), Le(adv, IntLit(4)), Le(Add(pos, adv), sl)))))
+				} else {
+					x.vc.Assume(Implies(ok, And(Ge(adv, IntLit(1)), Le(adv, IntLit(4)), Le(Add(pos, adv), sl))))
+				}
+				n.heap["G$iterpos"] = Store(m, itref, Ite(ok, Add(pos, adv), pos))
 			}
 		}
 		return res
@@ -425,6 +457,12 @@ func (fr *Frame) alloc(n *vnode, a *ssa.Alloc) *Val {
 	pt := a.Type().(*types.Pointer).Elem()
 	ref := x.newRef(a.Comment + "$" + a.Name())
 	fr.initObject(n, ref, pt)
+	if pt.String() == "bytes.Buffer" {
+		// the zero bytes.Buffer is empty ("The zero value for Buffer is an empty buffer ready to use")
+		x.eng.DeclareUF("seqLen", SInt, SInt)
+		m := x.comp(n.heap, "G$seq", SArray(SInt, SInt))
+		x.vc.Assume(Implies(n.reach, Eq(App("seqLen", SInt, Select(m, ref)), IntLit(0))))
+	}
 	return &Val{T: ref, Ty: a.Type()}
 }
 
